@@ -1106,6 +1106,8 @@ def pool_map(fn, items, chunksize=4):
         for a in args:
             yield _guard(a)
         return
+    from . import nm as _nm
+    _nm.tmpdir()   # created before the fork: workers' scratch files live under it and the parent removes it at exit
     ctx = mp.get_context('fork')
     with ctx.Pool(n) as pool:
         for r in pool.imap_unordered(_guard, args, chunksize=chunksize):
